@@ -47,3 +47,66 @@ Theorem parse_selector_rt_nthws :
 Proof. exact CssRoundTrip.parse_selector_rt_nthws. Qed.
 Print Assumptions parse_selector_rt_nthws.
 
+
+(* the class attribute (Proofs/ClassSplit.v): an element has class c iff c is a maximal run of
+   non-white-space characters of one of its class attributes, compared code point by code point;
+   every white-space character separates (tab, LF, FF, CR, space alike) *)
+From H2T Require Import Base Tagged Wrap Sub Css Dom Render Api CssParse Proofs.CssTotal Proofs.WrapInv Proofs.RenderWidth Proofs.Conserve Proofs.Footnotes Proofs.AnnBalance Proofs.RenderConserve Proofs.OptionRel Proofs.Compose Proofs.RenderTotal Proofs.FragStream Proofs.SimRel Proofs.Prune Proofs.ClassSplit.
+
+Theorem split_whitespace_spec :
+  forall v t : text, In t (split_whitespace v) <-> token_of t v.
+Proof. exact ClassSplit.split_whitespace_spec. Qed.
+Print Assumptions split_whitespace_spec.
+
+Theorem split_whitespace_toks :
+  forall (v : text) (l : list text), toks v l <-> split_whitespace v = l.
+Proof. exact ClassSplit.split_whitespace_toks. Qed.
+Print Assumptions split_whitespace_toks.
+
+Theorem has_class_spec :
+  forall (a : anc) (cls : text),
+       has_class a cls = true <->
+       (exists k v : text,
+          In (k, v) (a_attrs a) /\ cps k = s_class /\ (exists t : text, token_of t v /\ cps t = cps cls)).
+Proof. exact ClassSplit.has_class_spec. Qed.
+Print Assumptions has_class_spec.
+
+Theorem class_arm_spec :
+  forall (cls : text) (rest : list comp) (a : anc) (p : list anc),
+       do_matches (CClass cls :: rest) (a :: p) = true <->
+       (exists k v : text,
+          In (k, v) (a_attrs a) /\ cps k = s_class /\ (exists t : text, token_of t v /\ cps t = cps cls)) /\
+       do_matches rest (a :: p) = true.
+Proof. exact ClassSplit.class_arm_spec. Qed.
+Print Assumptions class_arm_spec.
+
+Theorem has_class_cps :
+  forall (a : anc) (cls cls' : text), cps cls = cps cls' -> has_class a cls = has_class a cls'.
+Proof. exact ClassSplit.has_class_cps. Qed.
+Print Assumptions has_class_cps.
+
+Theorem split_leading_trailing :
+  forall (s1 : text) (v : list chr) (s2 : text),
+       only_ws s1 -> only_ws s2 -> split_whitespace (s1 ++ v ++ s2) = split_whitespace v.
+Proof. exact ClassSplit.split_leading_trailing. Qed.
+Print Assumptions split_leading_trailing.
+
+Theorem split_double_sep :
+  forall (a : list chr) (c d : chr) (b : list chr),
+       ws c = true -> ws d = true -> split_whitespace (a ++ c :: d :: b) = split_whitespace (a ++ c :: b).
+Proof. exact ClassSplit.split_double_sep. Qed.
+Print Assumptions split_double_sep.
+
+Theorem split_any_sep :
+  forall (a : list chr) (c d : chr) (b : list chr),
+       ws c = true -> ws d = true -> split_whitespace (a ++ c :: b) = split_whitespace (a ++ d :: b).
+Proof. exact ClassSplit.split_any_sep. Qed.
+Print Assumptions split_any_sep.
+
+Theorem has_class_any_attr :
+  forall (a : anc) (cls k v t : text),
+       In (k, v) (a_attrs a) ->
+       cps k = s_class -> In t (split_whitespace v) -> cps t = cps cls -> has_class a cls = true.
+Proof. exact ClassSplit.has_class_any_attr. Qed.
+Print Assumptions has_class_any_attr.
+
